@@ -38,19 +38,19 @@ type crashPoint struct {
 }
 
 type crashSpec struct {
-	Part       string       `json:"part"` // "crash"
-	Op         string       `json:"op"`   // atomic | manifest | state | verifyindex | install
-	OldLen     int          `json:"old_len"`
-	NewLen     int          `json:"new_len"`
-	OldEntries int          `json:"old_entries"`
-	NewEntries int          `json:"new_entries"`
-	OldVersion int64        `json:"old_version"`
-	NewVersion int64        `json:"new_version"`
-	Seed       int64        `json:"seed"`
-	Prior      bool         `json:"prior"`    // install: an earlier install is recorded in the manifest
-	BinLen     int          `json:"bin_len"`  // install: size of the binary in the archive
-	Points     []crashPoint `json:"points"`   // filled in while the case runs (replay value)
-	Window     []string     `json:"-"`        // syscall sequence of the probe run
+	Part       string         `json:"part"` // "crash"
+	Op         string         `json:"op"`   // atomic | manifest | state | verifyindex | install
+	OldLen     int            `json:"old_len"`
+	NewLen     int            `json:"new_len"`
+	OldEntries int            `json:"old_entries"`
+	NewEntries int            `json:"new_entries"`
+	OldVersion int64          `json:"old_version"`
+	NewVersion int64          `json:"new_version"`
+	Seed       int64          `json:"seed"`
+	Prior      bool           `json:"prior"`   // install: an earlier install is recorded in the manifest
+	BinLen     int            `json:"bin_len"` // install: size of the binary in the archive
+	Points     []crashPoint   `json:"points"`  // filled in while the case runs (replay value)
+	Window     []string       `json:"-"`       // syscall sequence of the probe run
 	K0         map[string]int `json:"-"`
 }
 
@@ -81,10 +81,12 @@ func crashInstallCase(s crashSpec) installCase {
 }
 
 // paths inside a scenario directory
-func crTarget(dir string) string   { return filepath.Join(dir, "w", "connectors") }
-func crFile(dir string) string     { return filepath.Join(dir, "w", "connectors", ".registry", "data.bin") }
-func crManifest(dir string) string { return filepath.Join(dir, "w", "connectors", ".registry", "manifest.json") }
-func crState(dir string) string    { return registry.IndexStatePath(crTarget(dir)) }
+func crTarget(dir string) string { return filepath.Join(dir, "w", "connectors") }
+func crFile(dir string) string   { return filepath.Join(dir, "w", "connectors", ".registry", "data.bin") }
+func crManifest(dir string) string {
+	return filepath.Join(dir, "w", "connectors", ".registry", "manifest.json")
+}
+func crState(dir string) string { return registry.IndexStatePath(crTarget(dir)) }
 
 // prepareTemplate creates the OLD state of a scenario.
 func prepareTemplate(s crashSpec, dir string) error {
